@@ -104,11 +104,11 @@ def fixup(line):
     """the harness refuses to hand the library a buffer shorter than the request (that would be the CALLER's overflow): after an
     abuse, make the buffer of a read / the value list of a write long enough again, so that the abused request reaches the library"""
     t = line.split(' ')
-    if t[0] in ('da_rd', 'dv_rd') and len(t) == 5:
+    if t[0] in ('da_rd', 'dv_rd', 'da_rdd') and len(t) == 5:
         need = prod_of(t[2])
         if need is not None and need <= 10 ** 6 and t[4].isdigit():
             t[4] = str(max(int(t[4]), need, 64))
-    elif t[0] in ('da_wr', 'dv_wr') and len(t) == 5 or t[0] == 'da_app' and len(t) == 5:
+    elif t[0] in ('da_wr', 'dv_wr', 'da_wrd') and len(t) == 5 or t[0] == 'da_app' and len(t) == 5:
         vi = 4
         need = prod_of(t[2])
         vals = t[vi][1:-1].split(',') if len(t[vi]) > 2 else []
